@@ -61,17 +61,18 @@ GEOM_ORDER = list(GEOMS)
 # (name, values, minimal, skeleton, maximal, applies_to)
 _L = (0, 1, 2)
 _B = (0, 1)
+_E = (0, 1, 2)  # absent / present / present with a falsy value ("" or 0.0)
 AXES_DECL = [
     # ---- users
-    ("user.username", _B, 0, 0, 1, ALL), ("user.email", _B, 0, 0, 1, ALL),
-    ("user.name", _B, 0, 0, 1, ALL), ("user.institution", _B, 0, 0, 1, ALL),
+    ("user.username", _E, 0, 0, 1, ALL), ("user.email", _B, 0, 0, 1, ALL),
+    ("user.name", _B, 0, 0, 1, ALL), ("user.institution", _E, 0, 0, 1, ALL),
     # ---- notes
     ("note.created_by", _B, 0, 0, 1, ALL), ("note.is_issue", _B, 0, 0, 1, ALL),
     # ---- recordings
-    ("rec.time_expansion", (1.0, 2.0, 0.5), 1.0, 1.0, 2.0, ALL), ("rec.hash", _B, 0, 0, 1, ALL),
+    ("rec.time_expansion", (1.0, 2.0, 0.5), 1.0, 1.0, 2.0, ALL), ("rec.hash", _E, 0, 0, 1, ALL),
     ("rec.date", _B, 0, 0, 1, ALL), ("rec.time", _B, 0, 0, 1, ALL),
-    ("rec.latitude", _B, 0, 0, 1, ALL), ("rec.longitude", _B, 0, 0, 1, ALL),
-    ("rec.license", _B, 0, 0, 1, ALL), ("rec.rights", _B, 0, 0, 1, ALL),
+    ("rec.latitude", _E, 0, 0, 1, ALL), ("rec.longitude", _B, 0, 0, 1, ALL),
+    ("rec.license", _B, 0, 0, 1, ALL), ("rec.rights", _E, 0, 0, 1, ALL),
     ("rec.owners", _L, 0, 0, 2, ALL), ("rec.tags", _L, 0, 0, 2, ALL),
     ("rec.features", _L, 0, 0, 2, ALL), ("rec.notes", _L, 0, 0, 2, ALL),
     # ---- clips
@@ -97,24 +98,26 @@ AXES_DECL = [
     ("cp.sound_events", _L, 0, 1, 2, PRED), ("cp.sequences", _L, 0, 1, 2, PRED),
     ("cp.tags", _L, 0, 0, 2, PRED), ("cp.features", _L, 0, 0, 2, PRED),
     # ---- evaluation internals
-    ("match.affinity", (0.0, 0.5, 1.0), 0.0, 0.0, 0.5, EVAL), ("match.score", _B, 0, 0, 1, EVAL),
+    ("match.affinity", (0.0, 0.5, 1.0), 0.0, 0.0, 0.5, EVAL), ("match.score", _E, 0, 0, 1, EVAL),
     ("match.metrics", _L, 0, 0, 2, EVAL), ("match.paired", _B, 1, 1, 1, EVAL),
-    ("ce.metrics", _L, 0, 0, 2, EVAL), ("ce.score", _B, 0, 0, 1, EVAL),
+    ("ce.metrics", _L, 0, 0, 2, EVAL), ("ce.score", _E, 0, 0, 1, EVAL),
     # ---- tasks
     ("task.badges", _L, 0, 0, 2, {"annotation_project"}), ("badge.owner", _B, 0, 0, 1, {"annotation_project"}),
     ("project.extra_task", _B, 0, 0, 1, {"annotation_project"}),
     # ---- collections
     ("col.items", _L, 0, 1, 2, ALL),
-    ("col.description", _B, 0, 0, 1, {"dataset", "annotation_project", "evaluation_set", "model_run"}),
+    ("col.description", _E, 0, 0, 1, {"dataset", "annotation_project", "evaluation_set", "model_run"}),
     ("col.instructions", _B, 0, 0, 1, {"annotation_project"}),
     ("col.version", _B, 0, 0, 1, {"model_run"}),
     ("col.tags", _L, 0, 0, 2, {"annotation_project", "evaluation_set"}),
-    ("col.metrics", _L, 0, 0, 2, EVAL), ("col.score", _B, 0, 0, 1, EVAL),
+    ("col.metrics", _L, 0, 0, 2, EVAL), ("col.score", _E, 0, 0, 1, EVAL),
     # ---- sharing (0 = the same object at every site, 1 = a distinct object per site)
     ("share.tags_distinct", _B, 0, 0, 1, ALL), ("share.users_distinct", _B, 0, 0, 1, ALL),
     ("share.notes_distinct", _B, 1, 1, 1, ALL),
     ("share.sound_event_distinct", _B, 0, 0, 1, EVAL), ("share.sequence_distinct", _B, 0, 0, 1, EVAL),
     ("share.second_item_same_clip", _B, 0, 0, 0, CLIPPED),
+    ("sea.same_sound_event", _B, 0, 0, 0, ANN), ("seq.parent_also_annotated", _B, 0, 0, 0, ANN),
+    ("feat.zero_value", _B, 0, 0, 0, ALL),
     ("time.tz_aware", _B, 0, 0, 0, ALL),
     # ---- configuration
     ("audio_dir", _B, 0, 0, 1, ALL),
@@ -185,16 +188,18 @@ class Universe:
         def make():
             return data.User(
                 uuid=U(name),
-                username=("user_" + name) if c["user.username"] else None,
+                username=[None, "user_" + name, ""][c["user.username"]],
                 email=("a%d@example.org" % i) if c["user.email"] else None,
                 name=("Name " + name) if c["user.name"] else None,
-                institution="Inst" if c["user.institution"] else None,
+                institution=[None, "Inst", ""][c["user.institution"]],
             )
         return self.get(name, make)
 
     def tag(self, site, i=0):
         name = "%s%d" % (site if self.c["share.tags_distinct"] else "all", i)
-        return self.get("tag:" + name, lambda: data.Tag(term=term("key_" + name), value="val " + name))
+        site_name = site if self.c["share.tags_distinct"] else "all"
+        # within one site: same key, different values; across sites: different keys, same values
+        return self.get("tag:" + name, lambda: data.Tag(term=term("key_" + site_name), value="val %d" % i))
 
     def tags(self, site, n):
         return [self.tag(site, i) for i in range(n)]
@@ -204,6 +209,8 @@ class Universe:
         return [data.PredictedTag(tag=self.tag(site, i), score=s if i == 0 else 0.75) for i in range(n)]
 
     def features(self, site, n):
+        if self.c["feat.zero_value"]:
+            return [data.Feature(term=term("feat_%d" % i), value=0.0) for i in range(n)]
         return [data.Feature(term=term("feat_%d" % i), value=[1.5, 0.1][i] + len(site)) for i in range(n)]
 
     def note(self, site, i=0):
@@ -230,13 +237,13 @@ class Universe:
                 uuid=U("rec:%d" % i), path="%s/sub %d/réc_%d.wav" % (AUDIO_DIR, i, i),
                 duration=10.0 + i, channels=1 + i, samplerate=8000 * (i + 1),
                 time_expansion=c["rec.time_expansion"],
-                hash=("hash%d" % i) if c["rec.hash"] else None,
+                hash=[None, "hash%d" % i, ""][c["rec.hash"]],
                 date=datetime.date(2020, 1, 1 + i) if c["rec.date"] else None,
                 time=datetime.time(1, 2, 3 + i) if c["rec.time"] else None,
-                latitude=(1.5 + i) if c["rec.latitude"] else None,
+                latitude=[None, 1.5 + i, 0.0][c["rec.latitude"]],
                 longitude=(-2.25 - i) if c["rec.longitude"] else None,
                 license=("CC-BY %d" % i) if c["rec.license"] else None,
-                rights=("rights %d" % i) if c["rec.rights"] else None,
+                rights=[None, "rights %d" % i, ""][c["rec.rights"]],
                 owners=[self.user("owner", j) for j in range(c["rec.owners"])],
                 tags=self.tags("rec", c["rec.tags"]),
                 features=self.features("rec", c["rec.features"]),
@@ -293,7 +300,7 @@ class Universe:
             ci = 0 if c["share.second_item_same_clip"] else i
             seas = []
             for j in range(c["ca.sound_events"]):
-                se = self.sound_event("c%d:%d" % (i, j), ci, i * 2 + j)
+                se = self.sound_event("c%d:%d" % (i, 0 if c["sea.same_sound_event"] else j), ci, i * 2 + j)
                 seas.append(data.SoundEventAnnotation(
                     uuid=U("sea:%d:%d" % (i, j)), sound_event=se,
                     notes=self.notes("sea", c["sea.notes"]), tags=self.tags("sea", c["sea.tags"]),
@@ -302,6 +309,8 @@ class Universe:
             sqas = []
             for j in range(c["ca.sequences"]):
                 seq = self.sequence("c%d:%d" % (i, j), ci, events)
+                if j == 1 and c["seq.parent_also_annotated"] and sqas[0].sequence.parent is not None:
+                    seq = sqas[0].sequence.parent  # the child is annotated first, then its own parent
                 sqas.append(data.SequenceAnnotation(
                     uuid=U("sqa:%d:%d" % (i, j)), sequence=seq,
                     notes=self.notes("sqa", c["sqa.notes"]), tags=self.tags("sqa", c["sqa.tags"]),
@@ -360,7 +369,7 @@ class Universe:
                 return data.Match(
                     uuid=U("match:%d:%d" % (i, k)), source=source, target=target,
                     affinity=c["match.affinity"] if paired else 0.0,
-                    score=0.25 if c["match.score"] else None,
+                    score=[None, 0.25, 0.0][c["match.score"]],
                     metrics=self.features("match", c["match.metrics"]))
             if c["match.paired"]:
                 n = min(len(A), len(P))
@@ -373,7 +382,7 @@ class Universe:
                 matches.append(mk(None, a))
             return data.ClipEvaluation(
                 uuid=U("ce:%d" % i), annotations=ca, predictions=cp, matches=matches,
-                metrics=self.features("ce", c["ce.metrics"]), score=0.5 if c["ce.score"] else None)
+                metrics=self.features("ce", c["ce.metrics"]), score=[None, 0.5, 0.0][c["ce.score"]])
         return self.get("ce:%d" % i, make)
 
     def task(self, i, clip):
@@ -388,7 +397,7 @@ class Universe:
         c = self.c
         n = c["col.items"]
         cid = U("col:" + kind)
-        desc = "desc é" if c.get("col.description") else None
+        desc = [None, "desc é", ""][c.get("col.description") or 0]
         if kind == "recording_set":
             return data.RecordingSet(uuid=cid, created_on=self.dt, recordings=[self.recording(i) for i in range(n)])
         if kind == "dataset":
@@ -423,7 +432,7 @@ class Universe:
             return data.Evaluation(
                 uuid=cid, created_on=self.dt, evaluation_task="task_x",
                 clip_evaluations=[self.clip_evaluation(i) for i in range(n)],
-                metrics=self.features("col", c["col.metrics"]), score=0.75 if c["col.score"] else None)
+                metrics=self.features("col", c["col.metrics"]), score=[None, 0.75, 0.0][c["col.score"]])
         raise ValueError(kind)
 
 
